@@ -12,17 +12,21 @@
 #include <stdint.h>
 
 #include <signal.h>
+#include <sys/time.h>
 #include <fcntl.h>
 namespace vlog {
 inline int g_fd = -1;
 inline std::string g_buf;
 inline void flush() { size_t off = 0; while (off < g_buf.size()) { ssize_t w = ::write(g_fd, g_buf.data() + off, g_buf.size() - off); if (w <= 0) break; off += (size_t)w; } g_buf.clear(); }
+// the script line being executed (for the record a dying driver leaves behind)
+inline const char *g_cur_text = 0, *g_reset_text = 0;
+inline void mark_line() { if (g_cur_text) { g_buf += "{\"e\":\"AtLine\",\"text\":\""; for (const char *p = g_cur_text; *p; ++p) if (*p != '"' && *p != '\\' && (unsigned char)*p >= 32) g_buf += *p; g_buf += "\",\"reset\":\""; for (const char *p = g_reset_text ? g_reset_text : ""; *p; ++p) if (*p != '"' && *p != '\\' && (unsigned char)*p >= 32) g_buf += *p; g_buf += "\"}\n"; } }
 // events are buffered; a dying driver flushes what it has (sanitizer callback / fatal signal)
-static void on_fatal(int sig) { flush(); signal(sig, SIG_DFL); raise(sig); }
+static void on_fatal(int sig) { mark_line(); flush(); signal(sig, SIG_DFL); raise(sig); }
 inline void open(const char *path) {
     g_fd = ::open(path, O_WRONLY | O_CREAT | O_TRUNC, 0644); if (g_fd < 0) { perror("trace"); exit(3);} 
     g_buf.reserve(1 << 20);
-    int sigs[] = {SIGSEGV, SIGABRT, SIGBUS, SIGFPE, SIGALRM, SIGILL, SIGTERM};
+    int sigs[] = {SIGSEGV, SIGABRT, SIGBUS, SIGFPE, SIGALRM, SIGPROF, SIGILL, SIGTERM};
     for (int s : sigs) signal(s, on_fatal);
 }
 struct Ev {
@@ -55,12 +59,12 @@ struct Ev {
 inline void done() { Ev("Done").end(); flush(); ::close(g_fd); }
 
 // ---- script: lines of whitespace-separated tokens; lists are a,b,c or '-' ----
-struct Line { std::vector<std::string> t; };
+struct Line { std::vector<std::string> t; std::string raw; };
 inline std::vector<Line> read_script(const char *path) {
     std::vector<Line> out; FILE *f = fopen(path, "r"); if (!f) { perror("script"); exit(3);} 
     char *buf = nullptr; size_t cap = 0; ssize_t n;
     while ((n = getline(&buf, &cap, f)) > 0) {
-        Line l; char *save = nullptr;
+        Line l; char *save = nullptr; l.raw.assign(buf, (size_t)n); while (!l.raw.empty() && (l.raw.back() == '\n' || l.raw.back() == '\r')) l.raw.pop_back();
         for (char *tok = strtok_r(buf, " \t\r\n", &save); tok; tok = strtok_r(nullptr, " \t\r\n", &save)) l.t.push_back(tok);
         if (!l.t.empty()) out.push_back(l);
     }
@@ -74,18 +78,26 @@ inline std::vector<long long> list(const std::string &s) {
 inline std::vector<unsigned char> blist(const std::string &s) { auto v = list(s); return std::vector<unsigned char>(v.begin(), v.end()); }
 inline long long num(const std::string &s) { return atoll(s.c_str()); }
 
+// Watchdog per script line: g_op_timeout seconds of CPU time (a busy hang; insensitive to a loaded machine) and
+// 15 times as much wall-clock time (a blocked hang).  VERIF_OP_TIMEOUT=0 disables both.
+inline unsigned g_op_timeout = 2;
+inline void watchdog(bool on) {
+    struct itimerval it; memset(&it, 0, sizeof it); it.it_value.tv_sec = on ? g_op_timeout : 0; setitimer(ITIMER_PROF, &it, 0);
+    alarm(on ? g_op_timeout * 15 : 0);
+}
 // Standard driver main loop: skip `skip` executions (lines starting with R), then feed lines.
 template <class F> int run(int argc, char **argv, F &&on_line) {
     if (argc < 3) { fprintf(stderr, "usage: %s script trace [skip]\n", argv[0]); return 3; }
     auto sc = read_script(argv[1]); open(argv[2]);
     long skip = argc > 3 ? atol(argv[3]) : 0; long seen = 0;
-    unsigned g_op_timeout = getenv("VERIF_OP_TIMEOUT") ? atoi(getenv("VERIF_OP_TIMEOUT")) : 2;
+    g_op_timeout = getenv("VERIF_OP_TIMEOUT") ? atoi(getenv("VERIF_OP_TIMEOUT")) : 2;
     for (auto &l : sc) {
-        if (l.t[0] == "R") ++seen;
+        if (l.t[0] == "R") { ++seen; g_reset_text = l.raw.c_str(); }
         if (seen <= skip) continue;
-        alarm(g_op_timeout);          // watchdog: a call that does not return is a Fault{timeout}
+        g_cur_text = l.raw.c_str();
+        watchdog(true);               // a call that does not return is a Fault{timeout}
         on_line(l.t);
-        alarm(0);
+        watchdog(false);
     }
     done(); return 0;
 }
@@ -96,7 +108,7 @@ extern "C" __attribute__((weak)) void igris_verif_point(const char *, const void
 #endif
 // called by the ASan / UBSan runtime before it reports and dies (defined once per driver)
 #ifndef VLOG_NO_SANITIZER_HOOKS
-extern "C" void __asan_on_error() { vlog::flush(); }
+extern "C" void __asan_on_error() { vlog::mark_line(); vlog::flush(); }
 extern "C" void __ubsan_on_report() { vlog::flush(); }
 #endif
 #endif
